@@ -8,16 +8,23 @@ package gen
 //@ unit number
 
 //@ func (*Number).Reset
+//@   exact
+//@   opt exactprops = C02
 //@   modifies n.I, n.Frac, n.Div, n.Exp, n.Neg, n.NegExp, n.BigBuf
 //@   ensures [C02 inv] NumInv(n)
 //@   ensures [C02 C07 reset] n.I == 0 && n.Frac == 0 && n.Div == 1 && n.Exp == 0 && !n.Neg && !n.NegExp && len(n.BigBuf) == 0
 
 //@ func (*Number).FillBig
+//@   exact
+//@   opt exactprops = C02
+//@   requires n.Div <= 10000000000000000000
 //@   modifies n.BigBuf, heap(n.BigBuf)
 //@   ensures [C02] len(n.BigBuf) > old(len(n.BigBuf))
 //@   ensures [C07 own] arrid(n.BigBuf) == old(arrid(n.BigBuf)) || fresh(n.BigBuf)
 
 //@ func (*Number).AddDigit
+//@   exact
+//@   opt exactprops = C02
 //@   requires '0' <= b && b <= '9' && NumInv(n)
 //@   ensures [C02 inv] NumInv(n)
 //@   modifies n.I, n.BigBuf, heap(n.BigBuf)
@@ -29,6 +36,8 @@ package gen
 //@ pred NumInv(n) = len(n.BigBuf) == 0 ==> 1 <= n.Div && n.Div < BigLimit && n.Frac < n.Div && n.I <= MaxInt64 && n.Exp <= 1022
 
 //@ func (*Number).AddFrac
+//@   exact
+//@   opt exactprops = C02
 //@   requires '0' <= b && b <= '9' && NumInv(n)
 //@   ensures [C02 inv] NumInv(n)
 //@   modifies n.Frac, n.Div, n.BigBuf, heap(n.BigBuf)
@@ -36,6 +45,8 @@ package gen
 //@   ensures [C02 nolose] old(len(n.BigBuf)) > 0 ==> len(n.BigBuf) == old(len(n.BigBuf)) + 1
 
 //@ func (*Number).AddExp
+//@   exact
+//@   opt exactprops = C02
 //@   requires '0' <= b && b <= '9' && NumInv(n)
 //@   ensures [C02 inv] NumInv(n)
 //@   modifies n.Exp, n.BigBuf, heap(n.BigBuf)
@@ -44,7 +55,9 @@ package gen
 
 // A plain integer literal that fits int64 comes back as exactly that int64.
 //@ func (*Number).AsNum
-//@   requires NumInv(n)
+//@   exact
+//@   opt exactprops = C02
+//@   requires n.Div <= 10000000000000000000
 //@   modifies n.BigBuf, heap(n.BigBuf)
 //@   ensures [C02 int] old(len(n.BigBuf)) == 0 && old(n.Div) == 1 && old(n.Exp) == 0 && !n.ForceFloat
 //@        ==> isint64(num) && anyint(num) == (if old(n.Neg) then 0 - old(n.I) else old(n.I))
